@@ -276,6 +276,105 @@ func workloads(threeWay bool) []workload {
 			ws = append(ws, w)
 		}
 	}
+	// W17-W19 one collection written under two lock ids: the actor's
+	// collections are read-modify-written under the actor's lock by Follow /
+	// Accept / client Like, and under the collection's own lock by Add
+	{
+		sc := inboxScenario(nil, func(sc *sim.Scenario) {
+			sc.Cfg.OnFollow = 1
+			sc.Store[alice()+"/followers"] = M{"@context": AS, "type": "Collection", "id": alice() + "/followers", "items": A{R2 + "/users/old"}}
+		})
+		sc.Requests = nil
+		w := workload{Name: "W17.follow-vs-add-to-followers", Sc: sc, Cols: []string{"col:" + alice() + "/followers", "inbox:" + aliceIn()}, Adds: nil}
+		sc.Requests = append(sc.Requests, sim.PostInboxReq(aliceIn(), withCtx(M{"type": "Follow", "id": R1 + "/act/w17-follow", "actor": carol(), "object": alice()})))
+		sc.Requests = append(sc.Requests, sim.PostInboxReq(aliceIn(), withCtx(M{"type": "Add", "id": R1 + "/act/w17-add", "actor": dave(), "object": erin(), "target": alice() + "/followers"})))
+		if !threeWay {
+			ws = append(ws, w)
+		}
+	}
+	{
+		sc := inboxScenario(nil, func(sc *sim.Scenario) {
+			sc.Store[L+"/act/follow-w18"] = M{"@context": AS, "type": "Follow", "id": L + "/act/follow-w18", "actor": alice(), "object": carol()}
+			sc.Store[alice()+"/following"] = M{"@context": AS, "type": "Collection", "id": alice() + "/following", "items": A{R2 + "/users/old"}}
+		})
+		sc.Requests = nil
+		w := workload{Name: "W18.accept-vs-add-to-following", Sc: sc, Cols: []string{"col:" + alice() + "/following", "inbox:" + aliceIn()}, Adds: nil}
+		sc.Requests = append(sc.Requests, sim.PostInboxReq(aliceIn(), withCtx(M{"type": "Accept", "id": R1 + "/act/w18-accept", "actor": carol(), "object": L + "/act/follow-w18"})))
+		sc.Requests = append(sc.Requests, sim.PostInboxReq(aliceIn(), withCtx(M{"type": "Add", "id": R1 + "/act/w18-add", "actor": dave(), "object": erin(), "target": alice() + "/following"})))
+		if !threeWay {
+			ws = append(ws, w)
+		}
+	}
+	{
+		sc := outboxScenario(nil, func(sc *sim.Scenario) {
+			sc.Store[alice()+"/liked"] = M{"@context": AS, "type": "Collection", "id": alice() + "/liked", "items": A{R2 + "/notes/old"}}
+		})
+		sc.Requests = nil
+		w := workload{Name: "W19.client-like-vs-client-add-to-liked", Sc: sc, Cols: []string{"col:" + alice() + "/liked"}, Adds: nil}
+		sc.Requests = append(sc.Requests, sim.PostOutboxReq(aliceOut(), withCtx(M{"type": "Like", "actor": alice(), "to": carol(), "object": R1 + "/notes/w19-liked"})))
+		sc.Requests = append(sc.Requests, sim.PostOutboxReq(aliceOut(), withCtx(M{"type": "Add", "actor": alice(), "to": carol(), "object": R1 + "/notes/w19-added", "target": alice() + "/liked"})))
+		if !threeWay {
+			ws = append(ws, w)
+		}
+	}
+	// W20 two requests naming the same two owned ids in opposite order
+	// outside inbox forwarding: every per-id lock must be released before
+	// the next id is taken
+	for _, kind := range []string{"likes", "add-targets", "client-updates"} {
+		sc := inboxScenario(nil, func(sc *sim.Scenario) {
+			ownedNote(sc, 1, M{"summary": "one"})
+			ownedNote(sc, 2, M{"summary": "two"})
+			ownedCollection(sc, "cA", false, R2+"/notes/keepA")
+			ownedCollection(sc, "cB", true, R2+"/notes/keepB")
+		})
+		sc.Requests = nil
+		w := workload{Name: "W20.opposite-order." + kind, Sc: sc, Adds: nil}
+		n1, n2 := L+"/notes/1", L+"/notes/2"
+		switch kind {
+		case "likes":
+			w.Cols = []string{"likes:" + n1, "likes:" + n2, "inbox:" + aliceIn()}
+			sc.Requests = append(sc.Requests, sim.PostInboxReq(aliceIn(), withCtx(M{"type": "Like", "id": R1 + "/act/w20-a", "actor": carol(), "object": A{n1, n2}})))
+			sc.Requests = append(sc.Requests, sim.PostInboxReq(aliceIn(), withCtx(M{"type": "Like", "id": R1 + "/act/w20-b", "actor": dave(), "object": A{n2, n1}})))
+		case "add-targets":
+			w.Cols = []string{"col:" + L + "/collections/cA", "col:" + L + "/collections/cB", "inbox:" + aliceIn()}
+			sc.Requests = append(sc.Requests, sim.PostInboxReq(aliceIn(), withCtx(M{"type": "Add", "id": R1 + "/act/w20-a", "actor": carol(), "object": R1 + "/notes/w20-a", "target": A{L + "/collections/cA", L + "/collections/cB"}})))
+			sc.Requests = append(sc.Requests, sim.PostInboxReq(aliceIn(), withCtx(M{"type": "Add", "id": R1 + "/act/w20-b", "actor": dave(), "object": R1 + "/notes/w20-b", "target": A{L + "/collections/cB", L + "/collections/cA"}})))
+		case "client-updates":
+			// bob edits too (another outbox, the same objects): every
+			// sequential order ends with both members set on both notes
+			w.Cols = []string{"obj:" + n1, "obj:" + n2}
+			sc.Requests = append(sc.Requests, sim.PostOutboxReq(aliceOut(), withCtx(M{"type": "Update", "actor": alice(), "object": A{M{"type": "Note", "id": n1, "content": "by alice"}, M{"type": "Note", "id": n2, "content": "by alice"}}})))
+			sc.Requests = append(sc.Requests, sim.PostOutboxReq(bob()+"/outbox", withCtx(M{"type": "Update", "actor": bob(), "object": A{M{"type": "Note", "id": n2, "name": "by bob"}, M{"type": "Note", "id": n1, "name": "by bob"}}})))
+		}
+		if !threeWay {
+			ws = append(ws, w)
+		}
+	}
+	// W21 one owned object reached through two inboxes of this server
+	{
+		sc := inboxScenario(nil, func(sc *sim.Scenario) { ownedNote(sc, 1, nil) })
+		sc.Requests = nil
+		w := workload{Name: "W21.likes-through-two-inboxes", Sc: sc, Cols: []string{"likes:" + L + "/notes/1", "inbox:" + aliceIn(), "inbox:" + bob() + "/inbox"}, Adds: nil}
+		sc.Requests = append(sc.Requests, sim.PostInboxReq(aliceIn(), withCtx(likeOf(R1+"/act/w21-a", carol(), L+"/notes/1"))))
+		sc.Requests = append(sc.Requests, sim.PostInboxReq(bob()+"/inbox", withCtx(likeOf(R1+"/act/w21-b", dave(), L+"/notes/1"))))
+		if threeWay {
+			sc.Requests = append(sc.Requests, sim.PostInboxReq(aliceIn(), withCtx(M{"type": "Announce", "id": R1 + "/act/w21-c", "actor": erin(), "object": L + "/notes/1"})))
+			w.Cols = append(w.Cols, "shares:"+L+"/notes/1")
+		}
+		ws = append(ws, w)
+	}
+	// W23 duplicates among other traffic: A, A and B to one inbox
+	{
+		sc := inboxScenario(nil, func(sc *sim.Scenario) { ownedNote(sc, 1, nil); sc.Cfg.FedWrapped = true })
+		sc.Requests = nil
+		a := likeOf(R1+"/act/w23-dup", carol(), L+"/notes/1")
+		b := M{"type": "Announce", "id": R1 + "/act/w23-other", "actor": dave(), "object": L + "/notes/1"}
+		w := workload{Name: "W23.duplicate-among-other-traffic", Sc: sc, Cols: []string{"inbox:" + aliceIn(), "likes:" + L + "/notes/1", "shares:" + L + "/notes/1"}, Adds: nil, DupActivity: R1 + "/act/w23-dup"}
+		sc.Requests = append(sc.Requests, sim.PostInboxReq(aliceIn(), withCtx(a)), sim.PostInboxReq(aliceIn(), withCtx(b)), sim.PostInboxReq(aliceIn(), withCtx(a)))
+		if threeWay {
+			ws = append(ws, w)
+		}
+	}
 	// W8 two forwarding-eligible activities naming two owned collections in opposite order
 	{
 		sc := inboxScenario(nil, func(sc *sim.Scenario) {
@@ -289,6 +388,24 @@ func workloads(threeWay bool) []workload {
 			id := fmt.Sprintf("%s/act/w8-%d", R1, i)
 			sc.Requests = append(sc.Requests, sim.PostInboxReq(aliceIn(), withCtx(M{"type": "Create", "id": id, "actor": carol(),
 				"to": A{L + "/collections/" + order[0], L + "/collections/" + order[1]}, "object": note(fmt.Sprintf("%s/notes/w8-%d", R1, i), M{"inReplyTo": L + "/notes/1"})})))
+			w.Adds[i] = [][2]string{{"inbox:" + aliceIn(), id}}
+		}
+		ws = append(ws, w)
+	}
+	// W22 one owned collection per request: it is addressed by one activity
+	// and replied to by the other, and the other way round (the locks inbox
+	// forwarding keeps while it searches for an owned value)
+	{
+		sc := inboxScenario(nil, func(sc *sim.Scenario) {
+			ownedCollection(sc, "colA", false, dave())
+			ownedCollection(sc, "colB", false, erin())
+		})
+		sc.Requests = nil
+		w := workload{Name: "W22.forwarding-addressed-vs-replied-to", Sc: sc, Cols: []string{"inbox:" + aliceIn()}, Adds: map[int][][2]string{}, ExpectDeadlock: true}
+		for i, order := range [][2]string{{"colA", "colB"}, {"colB", "colA"}} {
+			id := fmt.Sprintf("%s/act/w22-%d", R1, i)
+			sc.Requests = append(sc.Requests, sim.PostInboxReq(aliceIn(), withCtx(M{"type": "Create", "id": id, "actor": carol(),
+				"to": A{L + "/collections/" + order[0]}, "object": note(fmt.Sprintf("%s/notes/w22-%d", R1, i), M{"inReplyTo": L + "/collections/" + order[1]})})))
 			w.Adds[i] = [][2]string{{"inbox:" + aliceIn(), id}}
 		}
 		ws = append(ws, w)
@@ -479,24 +596,26 @@ func judgeExecution(r *verdict.Run, w workload, er execResult, seqCols map[strin
 				}
 			}
 		}
-		viol("deadlock", strings.Join(keys(sites), "+"), "requests wait for each other's locks", er.Dead.String())
+		viol("deadlock", strings.Join(keys(sites), "+"), "requests wait for each other's locks: "+strings.TrimSuffix(w.Name, ".x3"), er.Dead.String())
 		return
 	}
 	for i, rp := range res.Responses {
 		if rp.Panic != "" {
+			// a panic that only this interleaving produces: the request
+			// did not complete
+			viol("panic", sim.PanicSite(rp.Stack), w.Name, fmt.Sprintf("request %d panicked: %s", i, rp.Panic))
 			return
 		}
 		if rp.Err != "" {
-			viol("request-failed", "pub", w.Name, fmt.Sprintf("request %d failed: %s", i, rp.Err))
-			return
+			// an error is a completion; what it did to the collections is
+			// judged below against the sequential outcomes
+			r.Count("requests_ending_in_an_error."+w.Name, 1)
 		}
 	}
-	// lock discipline stays armed
+	// lock discipline is C09's property; here it is observed only (a read
+	// outside every lock does not by itself lose an update)
 	for _, f := range lockMonitor(res) {
-		if f.Rule == "C09.reentrant-lock" {
-			continue // C09's own (known) finding
-		}
-		viol("lock-discipline:"+f.Rule, f.Site, f.Feature, f.Msg)
+		r.Count("lock_discipline_observations."+f.Rule, 1)
 	}
 	// mutual exclusion was really given (sanity of the scheduler)
 	// conservation
@@ -566,7 +685,7 @@ func judgeExecution(r *verdict.Run, w workload, er execResult, seqCols map[strin
 		if cbs > len(boxes) {
 			viol("duplicate-side-effects", "pub.(*sideEffectActor).PostInbox", w.Name, fmt.Sprintf("side-effect callback ran %d times for one activity id", cbs))
 		}
-		if fwd > 1 {
+		if fwd > len(boxes) {
 			viol("duplicate-forwarding", "pub.(*sideEffectActor).InboxForwarding", w.Name, fmt.Sprintf("forwarded %d times", fwd))
 		}
 	}
@@ -634,10 +753,19 @@ func judgeExecution(r *verdict.Run, w workload, er execResult, seqCols map[strin
 	r.NonTrivial(w.Name + "|" + er.SchedKey + "|" + mode)
 }
 
+// dfsTruncated remembers the workloads whose enumeration stopped at the
+// schedule limit with schedules still pending (reported in the evidence).
+var dfsTruncated sync.Map
+
 // dfs enumerates every schedule with at most `bound` preemptions.
 func dfs(w workload, bound int, limit int, each func(er execResult)) (count int, maxPre int) {
 	type frame struct{ prefix []string }
 	stack := []frame{{nil}}
+	defer func() {
+		if len(stack) > 0 {
+			dfsTruncated.Store(w.Name, len(stack))
+		}
+	}()
 	for len(stack) > 0 && count < limit {
 		f := stack[len(stack)-1]
 		stack = stack[:len(stack)-1]
@@ -686,7 +814,7 @@ func dfs(w workload, bound int, limit int, each func(er execResult)) (count int,
 func init() {
 	checks["c08"] = func(id string) int {
 		r := newRun(id, "exploration")
-		r.Rule = "workloads W1 duplicate POSTs of one activity, W2 different activities to one inbox, W3 Likes/Announces of one owned object, W4 Follows with auto-accept, W5 Adds to one collection, W6 client POSTs to one outbox, W7 Like || Announce || GET, W8 two forwarding activities naming two owned collections in opposite order; every schedule with at most b preemptions at the granularity of application-interface calls (controlled scheduler, depth-first, stateless re-execution) plus seeded random schedules; then the same workloads on real goroutines with PRNG jitter under the race detector; oracles: deadlock detector, conservation against the sequential run, duplicate rules, lock automaton, porcupine on the request-level history; non-trivial and distinct = a distinct interleaving (hash of the point sequence) of a workload"
+		r.Rule = "workloads W1 duplicate POSTs of one activity, W2 different activities to one inbox, W3 Likes/Announces of one owned object, W4 Follows with auto-accept, W5 Adds to one collection, W6 client POSTs to one outbox, W7 Like || Announce || GET, W8 two forwarding activities naming two owned collections in opposite order, W9-W16 (client likes, accepts, cross-protocol pairs, add vs remove, one activity to two inboxes), W17-W19 one collection written under the actor's lock and under its own, W20 two owned ids named in opposite order outside forwarding, W21 one object through two inboxes, W22 addressed vs replied-to collections, W23 a duplicate among other traffic; every schedule with at most b preemptions at the granularity of application-interface calls (controlled scheduler, depth-first, stateless re-execution) plus seeded random schedules; then the same workloads on real goroutines with PRNG jitter under the race detector; oracles: deadlock detector, conservation against the sequential run, duplicate rules, lock automaton, porcupine on the request-level history; non-trivial and distinct = a distinct interleaving (hash of the point sequence) of a workload"
 		r.Assumptions = []string{"the simulated Database grants Lock per id with mutual exclusion (the scheduler owns the lock table)", "granularity = calls into Database/Transport/protocols/callbacks; the library has no other shared state (checked by the race-detector build)"}
 		if *replay != "" {
 			fmt.Println("C08 replay: the recorded schedule is re-executed")
@@ -769,6 +897,10 @@ func init() {
 			}
 		}
 		parallel(jobs)
+		dfsTruncated.Range(func(k, v interface{}) bool {
+			r.Extra("dfs_stopped_at_limit_with_pending."+k.(string), v)
+			return true
+		})
 		r.Sample(map[string]interface{}{"workload": "W3b.likes-one-object", "requests": workloads(false)[3].Sc.Requests, "schedule_granularity": "one decision per Database/Transport/protocol/callback call"})
 		// real goroutines under the race detector
 		if bin := os.Getenv("VERIF_PUBMON_RACE"); bin != "" {
@@ -827,7 +959,22 @@ func init() {
 		iters := 300
 		fmt.Sscanf(os.Getenv("VERIF_RACE_ITERS"), "%d", &iters)
 		total, viols := 0, 0
-		for _, w := range workloads(true) {
+		// every workload once: the three-request form where there is one,
+		// else the two-request form (client || federated pairs among them)
+		all := workloads(true)
+		have := map[string]bool{}
+		for _, w := range all {
+			have[w.Name] = true
+		}
+		for _, w := range workloads(false) {
+			// W17-W19: the lost update between the two lock ids is already
+			// established by the scheduler (known finding); random threads
+			// would only hit it now and then
+			if !have[w.Name] && !strings.HasPrefix(w.Name, "W17.") && !strings.HasPrefix(w.Name, "W18.") && !strings.HasPrefix(w.Name, "W19.") {
+				all = append(all, w)
+			}
+		}
+		for _, w := range all {
 			if w.ExpectDeadlock != (os.Getenv("VERIF_RACE_SELFTEST") != "") {
 				// VERIF_RACE_SELFTEST=1 (development aid) runs only the
 				// workload with the known opposite-order deadlock, to show
